@@ -1,6 +1,6 @@
 (* Property C18 — symbolized callables keep Python call semantics.
    Only statements and [exact]; definitions are in Model/Binding.v, proofs in Proofs/Binding*.v. *)
-From PG Require Import Common.Tactics Model.Binding Proofs.BindingMaps Proofs.BindingProofs Proofs.BindingSig Proofs.BindingReport Proofs.BindingDirect Proofs.BindingClass Proofs.BindingSets.
+From PG Require Import Common.Tactics Model.Binding Proofs.BindingMaps Proofs.BindingProofs Proofs.BindingSig Proofs.BindingReport Proofs.BindingDirect Proofs.BindingClass Proofs.BindingSets Model.BindingLang Gen.BindingCallTime Model.BindingRun Proofs.BindingGen.
 From Coq Require Import NArith.
 Local Open Scope N_scope.
 
@@ -127,3 +127,13 @@ Theorem C18_positional_only_bound_by_name : exists q s c b,
   py_bind s c = Err ETypeError.
 Proof. exact positional_only_bound_by_name. Qed.
 Print Assumptions C18_positional_only_bound_by_name.
+
+(* Instance obligation, re-checked whenever the source changes: the program regenerated from
+   Functor._parse_call_time_overrides (Gen/BindingCallTime.v, interpreted by Model/BindingLang.v) hands
+   the wrapped function exactly the arguments of the hand model [functor_call_args] - to which
+   C18_call_equiv applies - on every input of a finite grid (48 signature shapes x 17 construction
+   calls x flags x later bindings x 15 calls x call-time flags, before and after a JSON round trip),
+   with run-time type checking on and off. *)
+Theorem C18_generated_call_time_code_agrees : grid_agrees = true.
+Proof. exact generated_code_agrees_on_grid. Qed.
+Print Assumptions C18_generated_call_time_code_agrees.
